@@ -38,8 +38,29 @@ class C06(scen.WorldProp):
                   "oracle: index of first non-opening row vs the row in progress when Go was delivered. "
                   "non-trivial = the method started")
 
+    def server_case(self, rng):
+        """Under Ringing Room's control (up, down and in): the method selected before Look To starts after two
+        rounds - also when the band, meanwhile, selects something for the *next* touch that would not fit the tower."""
+        from harness.props.c19 import method_msg
+        N = rng.choice([6, 8])
+        stage = rng.choice([4, 6, N])
+        ps = rng.choice([90, 120])
+        I = scen.interval(ps, N)
+        row_t = I * (N + 0.5)
+        t0 = 1000.5 + rng.random()
+        events = [[t0 - 0.3, "msg", method_msg(stage)], call(t0, LOOK_TO),
+                  [t0 + rng.uniform(0.2, 3 + 1.8 * row_t), "msg", method_msg(rng.choice([N + 2, N + 4, 4, N]))]]
+        sc = {"start": 1000.0, "end": t0 + 3 + 9 * row_t, "tower_size": N, "events": events,
+              "on_join": scen.humans_on_join([], "Wheatley", list(range(1, 17))),
+              "bot": scen.bot_cfg({"type": "placeholder"}, up_down_in=True, stop_at_rounds=False, user_name="Wheatley",
+                                  server_id=rng.randint(1, 9)),
+              "rhythm": scen.rhythm_cfg("wait", inertia=1.0, peal_speed=ps)}
+        return {"k": "world", "scenario": sc, "go": None, "t0": t0, "first_touch": None, "server_stage": stage}
+
     def cases(self, rng, tier):
         n = 300 if tier == "quick" else 3000
+        for i in range(n // 10):
+            yield self.server_case(rng)
         for i in range(n):
             stage = rng.randint(3, 8)
             N = min(16, stage + rng.choice([0, 0, 1, 2]))
@@ -105,6 +126,16 @@ class C06(scen.WorldProp):
             return f"crash: main={reply['crashed']} handlers={reply['handler_crashes']}"
         N = sc["tower_size"]
         spec = sc["bot"]["gen"]
+        if req.get("server_stage") is not None:
+            from harness.props.c19 import plain_rows
+            st = req["server_stage"]
+            rows = scen.rows_from_strikes(reply, N)
+            want = [list(range(1, N + 1))] * 2 + [r + list(range(st + 1, N + 1)) for r in plain_rows(st, 30)]
+            for i, r in enumerate(rows):
+                if i < len(want) and r != want[i]:
+                    return (f"server mode, the method of stage {st} selected before Look To: row {i} = {r}, expected "
+                            f"{want[i]} (two rounds, then the method)")
+            return None
         if req.get("first_touch") is not None:
             # judge the touch that follows the last Look To (the earlier one only sets the scene)
             reply = dict(reply, strikes=[s for s in reply["strikes"] if scen.b2f(s[0]) >= req["t0"]],
